@@ -349,14 +349,31 @@ func genC19(seed int64, tier string) []caseOut {
 		}
 	}
 	// 3. hostile patches
-	for _, p := range hostilePatches() {
-		runAll("hostile-patch", []byte(p))
+	{
+		// first in a child process: an input that kills the process must not take the run down
+		hostDoc := `{"publicKey":[{"id":"k1","type":"JsonWebKey2020"}],"service":[{"id":"s1"}],"arr":[1,[2,3],{"x":null}],"o":{"a":{"b":null}},"n":null}`
+		hps := hostilePatches()
+		seqs := make([]patchSeq, len(hps))
+		for k, p := range hps {
+			seqs[k] = patchSeq{hostDoc, []string{p}}
+		}
+		classes, details := runChildBatch(seqs)
+		for k, p := range hps {
+			if classes[k] >= 3 {
+				record("hostile-patch-child-process", "FromBytes+Validate+ApplyPatches+Marshal", []byte(p), classes[k], details[k])
+				continue
+			}
+			runAll("hostile-patch", []byte(p))
+		}
 	}
 	// 3b. patch sequences, each in a child process (a fatal runtime error must not take the run down)
-	for _, seq := range patchSequences(r, 0) {
-		class, detail := runChildSeq(seq)
-		in, _ := json.Marshal(seq)
-		record("patch-sequence-child-process", "FromBytes+Validate+ApplyPatches+Marshal", in, class, detail)
+	{
+		seqs := patchSequences(r, 0)
+		classes, details := runChildBatch(seqs)
+		for k, seq := range seqs {
+			in, _ := json.Marshal(seq)
+			record("patch-sequence-child-process", "FromBytes+Validate+ApplyPatches+Marshal", in, classes[k], details[k])
+		}
 	}
 	// 4. DIDs
 	for _, dstr := range []string{"", ":", "::", "did:ion", "did:ion:", "did:ion::", "did:ion:a", "did:ion:a:", "did:ion:a:b", "did:ion:a:e30", "did:ion:a:bnVsbA", "did:ion:a:W10",
@@ -386,11 +403,17 @@ type patchSeq struct {
 
 func childPatches() {
 	debug.SetMaxStack(48 << 20)
-	var in patchSeq
-	if err := json.NewDecoder(os.Stdin).Decode(&in); err != nil {
-		fmt.Println("class=1")
+	var ins []patchSeq
+	if err := json.NewDecoder(os.Stdin).Decode(&ins); err != nil {
+		fmt.Println("0 class=1")
 		return
 	}
+	for idx, in := range ins {
+		fmt.Printf("%d class=%d\n", idx, childOne(in))
+	}
+}
+
+func childOne(in patchSeq) int {
 	class, _ := guarded(func() error {
 		doc, e := document.FromBytes([]byte(in.Doc))
 		if e != nil {
@@ -414,38 +437,69 @@ func childPatches() {
 		_, e = json.Marshal(res)
 		return e
 	})
-	fmt.Printf("class=%d\n", class)
+	return class
+}
+
+// runChildBatch runs all sequences in as few child processes as possible: a child that dies is
+// restarted after the sequence that killed it.
+func runChildBatch(seqs []patchSeq) (classes []int, details []string) {
+	classes, details = make([]int, len(seqs)), make([]string, len(seqs))
+	start := 0
+	for start < len(seqs) {
+		in, _ := json.Marshal(seqs[start:])
+		cmd := exec.Command(os.Args[0], "-child-patches")
+		cmd.Stdin = bytes.NewReader(in)
+		var outb, errb bytes.Buffer
+		cmd.Stdout, cmd.Stderr = &outb, &errb
+		timedOut := false
+		if err := cmd.Start(); err != nil {
+			for i := start; i < len(seqs); i++ {
+				classes[i], details[i] = 1, "cannot start child"
+			}
+			return
+		}
+		done := make(chan error, 1)
+		go func() { done <- cmd.Wait() }()
+		select {
+		case <-done:
+		case <-time.After(120 * time.Second):
+			cmd.Process.Kill()
+			<-done
+			timedOut = true
+		}
+		n := 0
+		for _, line := range strings.Split(outb.String(), "\n") {
+			var idx, class int
+			if _, err := fmt.Sscanf(line, "%d class=%d", &idx, &class); err == nil && idx == n {
+				classes[start+n] = class
+				n++
+			}
+		}
+		if start+n >= len(seqs) {
+			return
+		}
+		// the child stopped at sequence start+n
+		if timedOut {
+			classes[start+n], details[start+n] = 3, "timeout"
+		} else {
+			first := strings.SplitN(errb.String(), "\n", 3)
+			classes[start+n], details[start+n] = 4, "process died: "+strings.Join(first[:min(2, len(first))], " | ")
+		}
+		start += n + 1
+	}
+	return
 }
 
 func runChildSeq(seq patchSeq) (int, string) {
-	in, _ := json.Marshal(seq)
-	cmd := exec.Command(os.Args[0], "-child-patches")
-	cmd.Stdin = bytes.NewReader(in)
-	var outb, errb bytes.Buffer
-	cmd.Stdout, cmd.Stderr = &outb, &errb
-	if err := cmd.Start(); err != nil {
-		return 1, "cannot start child"
-	}
-	done := make(chan error, 1)
-	go func() { done <- cmd.Wait() }()
-	select {
-	case <-done:
-	case <-time.After(30 * time.Second):
-		cmd.Process.Kill()
-		return 3, "timeout"
-	}
-	for c := 0; c <= 3; c++ {
-		if strings.Contains(outb.String(), fmt.Sprintf("class=%d", c)) {
-			return c, ""
-		}
-	}
-	first := strings.SplitN(errb.String(), "\n", 3)
-	return 4, "process died: " + strings.Join(first[:min(2, len(first))], " | ")
+	c, d := runChildBatch([]patchSeq{seq})
+	return c[0], d[0]
 }
 
 func patchSequences(r *rand.Rand, n int) []patchSeq {
 	doc := `{"a":[{}],"m":{"k":{}},"a/b":{"c":{}},"t~":{},"o":{"0":{},"1":{}},"alsoKnownAs":["https://aka.example/1"]}`
-	jp := func(ops ...string) string { return `{"action":"ietf-json-patch","patches":[` + strings.Join(ops, ",") + `]}` }
+	jp := func(ops ...string) string {
+		return `{"action":"ietf-json-patch","patches":[` + strings.Join(ops, ",") + `]}`
+	}
 	cp := func(from, path string) string { return fmt.Sprintf(`{"op":"copy","from":%q,"path":%q}`, from, path) }
 	mv := func(from, path string) string { return fmt.Sprintf(`{"op":"move","from":%q,"path":%q}`, from, path) }
 	var out []patchSeq
